@@ -684,6 +684,15 @@ func c15judgeWire(rec *mon.Recorder, b []byte, cell, source string) {
 	// the same bytes decoded into a variable that already held another key (a private EC2 key with
 	// every optional parameter): the result must be the same key, with the same gate
 	reused := c15usedKey()
+	// a by-value copy taken before the variable is decoded into again keeps the OLD key (the decoder
+	// builds a new parameter map, it does not refill the old one)
+	earlier := *reused
+	earlierHash := mon.DeepHashValue(earlier)
+	defer func() {
+		if mon.DeepHashValue(earlier) != earlierHash {
+			rec.Violate("copy-aliased", source, "a by-value copy of a Key changed when the original variable was decoded into again", in)
+		}
+	}()
 	if err := reused.UnmarshalCBOR(b); err != nil {
 		rec.Violate("history-dependent", source, "bytes accepted into a fresh Key are refused into a used one: "+err.Error(), in)
 		return
